@@ -553,7 +553,22 @@ def static_offsets_case(name, perm, checked, tampers=(), timeout=900):
 # ------------------------------------------------------------------------------------------------
 # C01 / C10: a whole program through the real registration templates and std_rtti
 
-def prog_dispatch(reg, rng, grouping="one", policy="default", max_calls=300):
+# how a virtual parameter is written: (in the declaration, in a definition, the argument of a call); the
+# first of each kind is the plain one. %d is the class; v the parameter's class, c the object's.
+# (`const virtual_ptr<K>&` of a plain class is not among them: the library does not compile it.)
+FORMS = {
+    "V": [("virtual_<K%d&>", "K%d&", "static_cast<K%(v)d&>(o%(c)d)"),
+          ("virtual_<const K%d&>", "const K%d&", "static_cast<const K%(v)d&>(o%(c)d)"),
+          ("virtual_<K%d*>", "K%d*", "static_cast<K%(v)d*>(&o%(c)d)"),
+          ("virtual_<std::shared_ptr<K%d>>", "std::shared_ptr<K%d>", "std::shared_ptr<K%(v)d>(s%(c)d)"),
+          ("virtual_<const std::shared_ptr<K%d>&>", "const std::shared_ptr<K%d>&", "std::shared_ptr<K%(v)d>(s%(c)d)")],
+    "P": [("VP%d", "VP%d", "VP%(v)d(static_cast<K%(v)d&>(o%(c)d))"),
+          ("VSP%d", "VSP%d", "VSP%(v)d(std::shared_ptr<K%(v)d>(s%(c)d))"),
+          ("const VSP%d&", "const VSP%d&", "VSP%(v)d(std::shared_ptr<K%(v)d>(s%(c)d))")],
+}
+
+
+def prog_dispatch(reg, rng, grouping="one", policy="default", max_calls=300, forms=True, rotate=None):
     """a program declaring the classes of `reg` (virtual inheritance, pure virtual functions for the
     abstract ones), registering them through the real templates in one of several groupings, declaring and
     defining its methods with the real macros, and calling every method on tuples of concrete classes.
@@ -602,19 +617,25 @@ def prog_dispatch(reg, rng, grouping="one", policy="default", max_calls=300):
                 params.append("int")
             else:
                 c = next(vps)
-                params.append(("virtual_<K%d&>" % c) if ch == "V" else ("virtual_ptr<K%d%s>" % (c, pol)))
-                vparam.append((ch, c))
+                if rotate is not None:   # every form comes up in turn, whatever the draw
+                    rotate += 1
+                    f = FORMS[ch][rotate % len(FORMS[ch])]
+                else:
+                    f = rng.choice(FORMS[ch]) if forms else FORMS[ch][0]
+                params.append(f[0] % c)
+                vparam.append(f)
+        m["forms"] = vparam
         decls.append("declare_method(int, m%d, (%s)%s);" % (m["key"], ", ".join(params), pol))
         script.append("method %d %s %s" % (m["key"], m["shape"], " ".join(str(ids[c]) for c in m["vp"])))
         for d, vp in m["defs"]:
-            it = iter(vp)
+            it = iter(zip(vp, vparam))
             ps = []
             for ch in kinds:
                 if ch == "N":
                     ps.append("int")
                 else:
-                    c = next(it)
-                    ps.append(("K%d&" % c) if ch == "V" else ("virtual_ptr<K%d%s>" % (c, pol)))
+                    c, f = next(it)
+                    ps.append(f[1] % c)
             defs.append("define_method(int, m%d, (%s)) { return %d; }" % (m["key"], ", ".join(ps), d))
             script.append("def %d %d %s" % (m["key"], d, " ".join(str(ids[c]) for c in vp)))
     script.append("update")
@@ -628,15 +649,14 @@ def prog_dispatch(reg, rng, grouping="one", policy="default", max_calls=300):
         import itertools
         tuples = list(itertools.product(*doms)) if total <= max_calls else [tuple(rng.choice(d_) for d_ in doms) for _ in range(max_calls)]
         for t in tuples:
-            it = iter(zip(m["vp"], t))
+            it = iter(zip(m["vp"], t, m["forms"]))
             args = []
             for ch in m["shape"]:
                 if ch == "N":
                     args.append("7")
                 else:
-                    v, c = next(it)
-                    ref = "static_cast<K%d&>(o%d)" % (v, c)
-                    args.append(ref if ch == "V" else "virtual_ptr<K%d%s>(%s)" % (v, pol, ref))
+                    v, c, f = next(it)
+                    args.append(f[2] % {"v": v, "c": c})
             calls.append("run([&] { return m%d(%s); });" % (m["key"], ", ".join(args)))
             script.append("call %d %s" % (m["key"], " ".join(str(ids[c]) for c in t)))
     polt = "YOMM2_DEFAULT_POLICY" if policy == "default" else policy
@@ -644,6 +664,7 @@ def prog_dispatch(reg, rng, grouping="one", policy="default", max_calls=300):
 #include <yorel/yomm2/keywords.hpp>
 #include <cstdio>
 #include <map>
+#include <memory>
 #include <typeinfo>
 using namespace yorel::yomm2;
 %(classes)s
@@ -668,8 +689,8 @@ int main() {
 %(calls)s
     return 0;
 }
-''' % {"classes": "\n".join(cls), "regs": "\n".join(regs), "decls": "\n".join(decls), "defs": "\n".join(defs),
-       "objects": "\n".join("static K%d o%d;" % (c, c) for c in concrete),
+''' % {"classes": "\n".join(cls + ["using VP%d = virtual_ptr<K%d%s>; using VSP%d = virtual_shared_ptr<K%d%s>;" % (i, i, pol, i, i, pol) for i in range(n)]), "regs": "\n".join(regs), "decls": "\n".join(decls), "defs": "\n".join(defs),
+       "objects": "\n".join("static K%d o%d; static std::shared_ptr<K%d> s%d = std::make_shared<K%d>();" % (c, c, c, c, c) for c in concrete),
        "idmap": "\n".join("    idof[(type_id)&typeid(K%d)] = %d;" % (i, ids[i]) for i in range(n)),
        "polt": polt, "calls": "\n".join("    " + c for c in calls)}
     return src, script
